@@ -387,6 +387,46 @@ def run(tier, seed, replay=None):
                     R.violation({'dialect': 'mindsdb', 'parts': parts, 'printed': txt, 'reparsed': got,
                                  'what': 'identifier path does not print to text that denotes the same parts'})
         stats['identifier_paths'] = {'fail': id_fail}
+        # the other direction: identifier paths written in the three spellings of a part (bare, `back-quoted`, "double-quoted") must
+        # be held as exactly the written parts: split only at the unquoted dots, nothing stripped from a quoted part
+        contents = ['a', 'A', 'x.y', 'a b', 'q1', 'select', 'é', 'a-b', 'p.q.r', '1a', '`q`', 'it s', 'From', 'a$b']
+        n_txt = n_txt_fail = 0
+        reported_txt = 0
+        for _ in range(400 if tier == 'quick' else 5000):
+            parts = []
+            for i in range(rng.randint(1, 3)):
+                c = rng.choice(contents)
+                st = rng.choice(['bare', 'back', 'dq'])
+                if st == 'bare' and not re.fullmatch(r'[A-Za-z_][A-Za-z_0-9]*', c) or (st == 'bare' and c.lower() in ('select', 'from')):
+                    st = 'back'
+                if st == 'back' and '`' in c:
+                    st = 'dq'
+                parts.append((c, st))
+            if len(parts) == 1 and parts[0][1] == 'dq':
+                continue            # a double-quoted word on its own is a string constant
+            txt = '.'.join(c if st == 'bare' else ('`' + c + '`' if st == 'back' else '"' + c + '"') for c, st in parts)
+            want = [c for c, _ in parts]
+            for ctx, pick in (('select {} from t', lambda a: a.targets[0]), ('select a from {}', lambda a: a.from_table),
+                              ('select a from t where {} = 1', lambda a: a.where.args[0])):
+                try:
+                    node = pick(parse_sql(ctx.format(txt), 'mindsdb'))
+                    got = list(node.parts) if isinstance(node, Identifier) else f'<{type(node).__name__}>'
+                except Exception as e:
+                    got = f'<{type(e).__name__}>'
+                n_txt += 1
+                evaluations += 1
+                if got == want:
+                    continue
+                n_txt_fail += 1
+                first_dq = parts[0][1] == 'dq' and ('.' in parts[0][0] or '`' in parts[0][0])
+                fd = [f for f in findings if f['classifier'].get('kind') == 'ident_text' and first_dq and 'first_part_double_quoted' in f['classifier']['any_feature']]
+                if fd:
+                    R.known_finding(f'{fd[0]["id"]}: {fd[0]["what"]}')
+                elif reported_txt < 3:
+                    reported_txt += 1
+                    R.violation({'dialect': 'mindsdb', 'sql': ctx.format(txt), 'identifier_text': txt, 'parts_written': want, 'parts_held': got,
+                                 'what': 'an identifier path is not held as the parts its text denotes'})
+        stats['identifier_texts'] = {'read': n_txt, 'fail': n_txt_fail}
     for e in broken:
         if not any(not nf for _, nf in R.violations):
             R.violation({'what': e.what, 'detail': e.detail, 'theorem': 'C04 instance / correspondence'}, nofail=True)
